@@ -202,7 +202,10 @@ def wrap(form, lines, ext, i):
 SINGLE_LINE_FORMS = {"line", "rsdoc", "rsinner", "hash", "sqlline", "trail", "htrail", "sqltrail", "mdparen", "mdquote"}
 
 
-def render(items, ext, variant=0, crlf=False, multibyte=False, tag_attrs=None):
+END_SPELLINGS = ["</block>", "</ block >", "< /block>", "</block >"]
+
+
+def render(items, ext, variant=0, crlf=False, multibyte=False, tag_attrs=None, bare=False, endsp=None):
     """-> dict(name, text, starts=[{name,line,col,item,pos}], comments={item: (start_byte, end_byte)},
                lines=[...])  Items: [{k: code|str|cmt, tags: [...]}]"""
     fl = forms(ext)
@@ -234,12 +237,20 @@ def render(items, ext, variant=0, crlf=False, multibyte=False, tag_attrs=None):
                 if t == "S":
                     sidx += 1
                     extra = (tag_attrs or {}).get(sidx, "")
-                    texts.append(("S", '<block name="n%d"%s>' % (sidx, extra), p, "n%d" % sidx))
+                    texts.append(("S", "<block>" if bare else '<block name="n%d"%s>' % (sidx, extra), p, "n%d" % sidx))
                 else:
-                    texts.append(("E", "</block>" if (n + p) % 3 else "</ block >", p, None))
+                    es = END_SPELLINGS[endsp % 4] if endsp is not None else ("</block>" if (n + p) % 3 else "</ block >")
+                    texts.append(("E", es, p, None))
             if not texts:
                 clines = ["%s only" % note]
                 where = []
+            elif bare:
+                # tight: nothing but the tags, glued together, the last one ending the comment text
+                line, where = "", []
+                for (k, tx, p, nm) in texts:
+                    where.append((0, len(line), k, p, nm))
+                    line += tx
+                clines = [line]
             elif len(texts) == 1 or form in SINGLE_LINE_FORMS or (variant + n) % 2 == 0:
                 line = note
                 where = []
